@@ -27,6 +27,11 @@ def exhaustive_specs(rng, tier):
                     s = gen.rand_spec(rng, n_total=n, n_demes=nd, n_epochs=1, loci=2, end_time='never')
                     s['n_items'] = [[pc[0], int(c)] for pc, c in zip(s['n_items'], comp)]
                     s['n_unlinked'] = nu
+                    # how the recombination rate reaches the configuration: LocusConfig constructor, keyword of the Coalescent
+                    # next to a LocusConfig (with or without another rate of its own), or loci=2 with the keyword
+                    s['rec_route'] = ['locus_config', 'kwarg', 'kwarg_over', 'int'][len(specs) % 4]
+                    if s['rec_route'] != 'locus_config' and not s.get('recombination_rate'):
+                        s['recombination_rate'] = rng.choice([0.5, 1.0, 3.0])
                     specs.append(s)
     return specs
 
